@@ -50,6 +50,11 @@ def check(prog, ctx):
     ctx.sub('eigenvalues', eigenvalues, prog, ctx)
     ctx.sub('bounded', bounded, prog, ctx)
     ctx.sub('inverse_iteration', inverse_iteration, prog, ctx)
+    ctx.rule('C15.f', 'dependency: the reflector is built with Vector::Norm / Normalize, Outer_Vector_Product, Identity_Matrix, Matrix::operator* and '
+             'Sub_Matrix and the block constructor; QR and the eigen routines inherit the obligations of C04 about those functions', 6)
+    ctx.inherit('C04', lambda o: o.rule == 'C04.b' and o.instance in ('Vector::Norm', 'Vector::Normalize', 'Vector::Normalized', 'Outer_Vector_Product', 'Identity_Matrix',
+                                                                        'Matrix::Product(Matrix)', 'Matrix::Sub_Matrix', 'Matrix(blocks)', 'Matrix::Return_Column', 'Vector::Dot'),
+                'C15.f', 'QR_Decomposition and Eigenvalues')
 
 
 def householder(prog, ctx):
